@@ -202,6 +202,7 @@ func main() {
 	redirects := map[string]*ssa.Function{}
 	var guards []guardSpec
 	var assumptions []string
+	serialFns := map[string]bool{}
 	fnByName := map[string]*ssa.Function{}
 	for f := range ssautil.AllFunctions(prog) {
 		fnByName[f.String()] = f
@@ -267,6 +268,19 @@ func main() {
 							}
 						}
 						guards = append(guards, guardSpec{fields[1], fields[2], fields[3]})
+					case "verif:serial":
+						// //verif:serial <function>: documented as not safe to call concurrently with anything else;
+						// locks taken inside it do not enter the lock-order graph
+						if len(fields) < 2 {
+							fatal("bad serial directive: %s", txt)
+						}
+						if _, ok := fnByName[fields[1]]; !ok {
+							fatal("serial function %s not found", fields[1])
+						}
+						if !serialFns[fields[1]] {
+							serialFns[fields[1]] = true
+							assumptions = append(assumptions, "lock order: "+fields[1]+" is documented as not concurrent with other operations; its lock acquisitions are left out of the lock-order graph")
+						}
 					case "verif:assume":
 						assumptions = append(assumptions, strings.TrimSpace(strings.TrimPrefix(txt, "verif:assume")))
 					}
@@ -295,7 +309,7 @@ func main() {
 			opts.Concrete = []uint64{}
 		}
 	}
-	sh := &Shared{prog: prog, redirects: redirects, errType: errType, harness: hf, opts: opts, res: res, guards: guards, sizes: types.SizesFor("gc", "amd64")}
+	sh := &Shared{serialFns: serialFns, prog: prog, redirects: redirects, errType: errType, harness: hf, opts: opts, res: res, guards: guards, sizes: types.SizesFor("gc", "amd64")}
 	explore(sh)
 	if opts.Concrete == nil {
 		for _, cyc := range sh.lockCycles() {
